@@ -24,7 +24,9 @@ def contexts(draw, rule_names=True, io_modes=('utf8', 'utf8', 'utf8_strict')):
     return {'cwd': draw(st.sampled_from(['tool', 'elsewhere', 'decoy', 'decoy'])),
             'rule': draw(st.sampled_from(RULE_NAMES)) if rule_names else 'T',
             'hashseed': draw(st.sampled_from([None, 0, 1, 77, 4242])),
-            'io': draw(st.sampled_from(list(io_modes)))}
+            'io': draw(st.sampled_from(list(io_modes))),
+            # the script is started directly or through a symbolic link elsewhere (an "installed" launcher in ~/bin)
+            'launcher': draw(st.sampled_from(['direct', 'direct', 'symlink']))}
 
 
 DEFAULT = {'cwd': 'tool', 'rule': 'T', 'hashseed': 0, 'io': 'utf8'}
@@ -65,10 +67,21 @@ def cwd_for(root, ctx, rule_name=None):
 
 def run(root, script, args, ctx=None, stdin=subprocess.DEVNULL, timeout=120, rule_name=None, **kw):
     ctx = ctx or DEFAULT
-    return subprocess.run([sys.executable, os.path.join(root, script)] + list(args), stdin=stdin, capture_output=True, env=env_for(ctx),
+    return subprocess.run([sys.executable, script_path(root, script, ctx)] + list(args), stdin=stdin, capture_output=True, env=env_for(ctx),
                           cwd=cwd_for(root, ctx, rule_name), timeout=timeout, **kw)
+
+
+def script_path(root, script, ctx):
+    if (ctx or {}).get('launcher') != 'symlink':
+        return os.path.join(root, script)
+    bindir = os.path.join(root, 'bin dir')
+    os.makedirs(bindir, exist_ok=True)
+    link = os.path.join(bindir, script)
+    if not os.path.islink(link):
+        os.symlink(os.path.join(root, script), link)
+    return link
 
 
 def label(ctx):
     return ['cwd_' + ctx.get('cwd', 'tool'), 'io_' + ctx.get('io', 'utf8'), 'hashseed_' + ('random' if ctx.get('hashseed') is None else 'fixed')] + \
-        (['rule_name_unusual'] if ctx.get('rule', 'T') != 'T' else [])
+        (['rule_name_unusual'] if ctx.get('rule', 'T') != 'T' else []) + (['started_through_symlink'] if ctx.get('launcher') == 'symlink' else [])
